@@ -63,3 +63,19 @@ VARIANTS += [
     V("clock-guard-removed", CORE + "base_solver.py", "                if not next_t > curr_t:\n", "                if False:\n", rule="R14.8"),
     V("twin-clock-guard-spelled-le", CORE + "base_solver.py", "                if not next_t > curr_t:\n", "                if next_t <= curr_t:\n", expect="silent"),
 ]
+
+ACCEPT = "                    if error_estimate <= 1 or step_size <= self.dt_min:\n"
+VARIANTS += [
+    # R14.9: the statement on traces of the real adaptive driver under seeded scripted controller schedules
+    V("scripted-accepts-every-trial", BS, ACCEPT, "                    if True:\n", rule="R14.9"),
+    V("scripted-accepts-the-full-step", BS, "                        curr_t, curr_y, curr_extra = next_t, next_y, next_extra\n",
+      "                        curr_t, curr_y, curr_extra = next_t, next_y_full, next_extra\n", rule="R14.9"),
+    V("scripted-error-of-first-half-step", BS, "adaptive_stepping.compute_error(next_y_full, next_y, self.rtol, self.atol)",
+      "adaptive_stepping.compute_error(next_y_full, midpoint_y, self.rtol, self.atol)", rule="R14.9"),
+    V("scripted-retry-not-smaller", BS, "                        step_size = self.dt_min\n                        prev_error_ratio = None\n",
+      "                        step_size = self.dt_min\n                        prev_error_ratio = None\n"
+      "                    if error_estimate > 1 and step_size > self.dt_min:\n                        step_size = max(step_size, next_t - curr_t)\n",
+      rule="R14.9"),
+    V("twin-scripted-accept-spelled-by-de-morgan", BS, ACCEPT,
+      "                    if not (error_estimate > 1 and step_size > self.dt_min):\n", expect="silent"),
+]
